@@ -215,26 +215,49 @@ Theorem C06_stmt_segment_total : forall s t, stmt_segment_then_byte s t <> RPani
 Proof. exact stmt_segment_total. Qed.
 Print Assumptions C06_stmt_segment_total.
 
-(* ================================================================== loops, recursion, dummy segments *)
-Theorem C06_loop_iterations_guarded : forall count, Known_loop_count_huge count = false -> 0 <= loop_iterations count <= huge_loop_threshold.
-Proof. exact loop_iterations_guarded. Qed.
-Print Assumptions C06_loop_iterations_guarded.
-(* `.loop` runs its body as often as the argument says: no bound *)
-Theorem C06_loop_iterations_refuted : forall bound, exists count, in_i64 count = true /\ (bound < i64_max -> bound < loop_iterations count).
-Proof. exact loop_iterations_unbounded. Qed.
-Print Assumptions C06_loop_iterations_refuted.
+(* ================================================================== loops, recursion, nesting, dummy segments *)
+(* `.loop`: a diagnostic iff the count exceeds what is left of the pass's budget of 65536 iterations; all counts *)
+Theorem C06_loop_enter_spec : forall used count, 0 <= used <= 65536 ->
+  (count <= 65536 - used -> loop_enter used count = SOk (used + loop_iterations count) /\ 0 <= used + loop_iterations count <= 65536) /\
+  (65536 - used < count -> loop_enter used count = SDiag diag_loop_budget).
+Proof. exact loop_enter_spec. Qed.
+Print Assumptions C06_loop_enter_spec.
+(* any sequence of loops a pass enters (nested ones re-entered per outer iteration): at most 65536 iterations are started *)
+Theorem C06_loops_of_a_pass_bounded : forall counts used, 0 <= used <= 65536 -> 0 <= run_loops used counts <= 65536.
+Proof. exact run_loops_bounded. Qed.
+Print Assumptions C06_loops_of_a_pass_bounded.
 (* every import graph (cycles included): the recursive emission is bounded or the cycle is reported *)
 Theorem C06_import_depth_bounded : forall g, import_depth g <> Unbounded.
 Proof. exact import_depth_bounded. Qed.
 Print Assumptions C06_import_depth_bounded.
-(* macro invocation recurses without bound exactly on cyclic invocation graphs *)
-Theorem C06_macro_depth_unbounded_iff : forall g, macro_depth g = Unbounded <-> Known_macro_recursion g = true.
-Proof. exact macro_depth_unbounded_iff. Qed.
-Print Assumptions C06_macro_depth_unbounded_iff.
-(* `.macro m() { m() }` + `m()` *)
-Theorem C06_macro_recursion_refuted : macro_depth [[1%nat]; [1%nat]] = Unbounded.
-Proof. exact macro_recursion_refuted. Qed.
-Print Assumptions C06_macro_recursion_refuted.
+(* every macro invocation graph, cyclic ones included *)
+Theorem C06_macro_depth_bounded : forall g, macro_depth g <> Unbounded.
+Proof. exact macro_depth_bounded. Qed.
+Print Assumptions C06_macro_depth_bounded.
+(* the recursion guards of the code generator (emit_token) and of the parser (`nested`): a container at depth d is
+   entered iff d < 64, otherwise a diagnostic *)
+Theorem C06_guard_enter_spec : forall d,
+  (codegen_enter d = SOk (S d) <-> (d < 64)%nat) /\ (codegen_enter d = SDiag diag_nested_too_deep <-> (64 <= d)%nat) /\
+  (parser_enter d = SOk (S d) <-> (d < 64)%nat) /\ (parser_enter d = SDiag diag_nested_too_deep <-> (64 <= d)%nat).
+Proof. exact guard_enter_spec. Qed.
+Print Assumptions C06_guard_enter_spec.
+(* a guarded walk over ANY tree of containers (any depth, any width) never works deeper than 64 levels *)
+Theorem C06_walk_depth_bounded : forall fuel d t, (d <= 64)%nat -> (walk_depth fuel d t <= 64)%nat.
+Proof. exact walk_depth_bounded. Qed.
+Print Assumptions C06_walk_depth_bounded.
+(* a failing parse of n nested parentheses / argument lists is attempted once per level on the current source ... *)
+Theorem C06_parse_attempts_linear : forall n,
+  parse_attempts factor_attempts_per_level n = 1%nat /\ parse_attempts arg_list_attempts_per_level n = 1%nat.
+Proof. exact parse_attempts_linear. Qed.
+Print Assumptions C06_parse_attempts_linear.
+(* ... and 2^n times when a level tries the same text twice (the source before d3a5f8a / 5a55722) *)
+Theorem C06_parse_attempts_unguarded : forall n, parse_attempts 2 n = (2 ^ n)%nat.
+Proof. exact parse_attempts_unguarded. Qed.
+Print Assumptions C06_parse_attempts_unguarded.
+(* `defined(defined(x))`, `ram16(ram16($fb))`: the callback is not locked, the inner call returns *)
+Theorem C06_nested_call_returns : nested_call_of_same_function = CallReturns.
+Proof. exact nested_call_returns. Qed.
+Print Assumptions C06_nested_call_returns.
 Theorem C06_nested_dummy_segment_ok : emit_after_nested_dummy = SOk tt.
 Proof. exact nested_dummy_segment_ok. Qed.
 Print Assumptions C06_nested_dummy_segment_ok.
@@ -243,15 +266,10 @@ Print Assumptions C06_nested_dummy_segment_ok.
 Theorem C06_bank_padding_total : forall size len fill, bank_padding size len fill <> SPanic.
 Proof. exact bank_padding_total. Qed.
 Print Assumptions C06_bank_padding_total.
-(* outside the known class the padding held in memory is at most 2^30 bytes *)
-Theorem C06_bank_padding_guarded : forall size len fill n, 0 <= len -> Known_bank_size_huge size = false ->
-  bank_padding size len fill = SOk n -> 0 <= n <= 1073741824.
-Proof. exact bank_padding_guarded. Qed.
-Print Assumptions C06_bank_padding_guarded.
-(* a terabyte of padding is requested as one allocation *)
-Theorem C06_bank_padding_refuted : bank_padding 1099511627776 1 true = SOk 1099511627775 /\ Known_bank_size_huge 1099511627776 = true.
-Proof. exact bank_padding_refuted. Qed.
-Print Assumptions C06_bank_padding_refuted.
+(* whatever size is configured: at most 16 MiB of padding are built in memory, or the size is rejected *)
+Theorem C06_bank_padding_bounded : forall size len fill n, 0 <= len -> bank_padding size len fill = SOk n -> 0 <= n <= 16777216.
+Proof. exact bank_padding_bounded. Qed.
+Print Assumptions C06_bank_padding_bounded.
 
 (* ================================================================== diagnostic locations (span construction, code_map.rs) *)
 (* diagnostics carry token spans or merges of two spans of the same statement: a merge of spans of one file stays in it *)
@@ -289,6 +307,8 @@ Proof. repeat split; vm_compute; reflexivity. Qed.
 Example C06_example_overflow : apply_i64 Add i64_max 1 = Ovf /\ apply_i64 Shl 1 64 = Ovf /\ apply_i64 Div i64_min (-1) = Ovf /\
                                apply_i64 Add 1 2 = Val 3.
 Proof. repeat split; vm_compute; reflexivity. Qed.
-Example C06_example_guard : Known_loop_count_huge 1000 = false /\
-                            Known_macro_recursion [[1%nat; 2%nat]; [2%nat]; []] = false.
+Example C06_example_guards :
+  loop_enter 0 i64_max = SDiag diag_loop_budget /\ loop_enter 65000 536 = SOk 65536 /\ macro_depth [[1%nat]; [1%nat]] = CycleReported /\
+  codegen_enter 63 = SOk 64%nat /\ parser_enter 64 = SDiag diag_nested_too_deep /\
+  bank_padding 1099511627776 1 true = SDiag diag_bank_size_negative /\ bank_padding 16 1 true = SOk 15.
 Proof. repeat split; vm_compute; reflexivity. Qed.
